@@ -357,13 +357,14 @@ func (l jsonList) patch(pathBehind, pathAhead Path, before, removeValues, addVal
 		return l, nil
 	}
 
-	// Special case for appending to the end of list
+	// Special case for appending to the end of list: -1 stands for the
+	// index after the last element. Context lines are checked there
+	// like anywhere else.
 	if int(i) == -1 {
 		if len(removeValues) > 0 {
 			return nil, fmt.Errorf("invalid patch. appending to -1 index. but want to remove values")
 		}
-		l = append(l, addValues...)
-		return l, nil
+		i = PathIndex(len(l))
 	}
 	if int(i) < 0 || int(i) > len(l) {
 		return nil, fmt.Errorf("patch index out of bounds: %v", i)
